@@ -12,7 +12,8 @@ NaN keys are covered).
 
 Stages of DESIGN.md §4 C06: (1) no growth, (2) growth incl. same-size growth, (3) delete with the emptyRest
 back-propagation, (4) clear are PROVED here for every table state and every history; (5) iteration is stated
-(`IterationSpec`) and is FALSE for the code as it is (`iteration_counterexample`).
+(`IterationSpec`) and is FALSE for the code as it is (`iteration_counterexample`); proved parts: empty maps
+(`iteration_partial_empty*`) and "no deleted entry" while the table does not grow (`iteration_partial_stable`).
 -/
 namespace LlgoVerif.HMap
 open LlgoVerif.AssocList
@@ -240,6 +241,16 @@ theorem iteration_partial_empty_loop (o : Ops K) (h : HMap K V) (steps : List (L
   · simp [runLoop, h1, runLoopFrom, mapIterNext, pure, Except.pure]
   · intro kv hy hm
     simp at hm
+
+/-- the other proved part: as long as the table is not growing, an iterator that walks the current bucket array
+    (`IterCur`: true for a fresh iterator and kept by every step) yields only entries the table holds at that
+    moment — whatever deletions, updates and insertions happened since the loop started (they all keep the array) -/
+theorem iteration_partial_stable {o : Ops K} {h : HMap K V} (hw : WF o h) (hold : h.old = none) {it it' : Iter K V}
+    (hic : IterCur h it) (e : mapiternext o h it = .ok it') :
+    IterCur h it' ∧ ∀ k v, it'.key = some k → it'.elem = some v → (k, v) ∈ abs h :=
+  mapiternext_yields_live hw hold hic e
+
+example (h : HMap (Nat × Bool) Nat) : IterCur h { gen := h.gen } := ⟨rfl, rfl, fun _ e => by cases e⟩
 
 /-! ### the counterexample (keys: a number and a "is NaN" flag; NaN keys are equal to nothing) -/
 
